@@ -24,7 +24,10 @@
 #include "vpay.hpp"
 #include "soh_extra.hpp"  // vstd::shared_ptr: copies / destructions of shared_ptr instances are visible
 #define std vstd
-#define private public  // harness-side only: lets final() read the maps without events
+#ifndef VS_NO_PEEK
+#define private public  // harness-side only: lets final() read the maps without events.  VS_NO_PEEK (search after a change
+                        // that renames a field): final() prints only the harness ledger and the marker line `8`
+#endif
 #include "gmlc/concurrency/SearchableObjectHolder.hpp"
 #undef private
 #undef std
@@ -55,6 +58,28 @@ using Ptr = vstd::shared_ptr<Pay>;
 using Pred = std::function<bool(const Ptr&)>;
 std::string nm(long n) { return "n" + std::to_string(1000 + n); }  // order of names = order of numbers
 long unnm(const std::string& s) { return std::stol(s.substr(1)) - 1000; }
+// final-state lines `2 name tag...` for whatever container holds the tags: a map name -> sequence of tags, or a
+// multimap with one (name, tag) node per tag
+template<class M>
+void peek_tags(const M& m, std::vector<std::vector<long>>& out)
+{
+    using V = typename M::mapped_type;
+    if constexpr (std::is_arithmetic_v<V> || std::is_enum_v<V>) {
+        for (auto& kv : m) {
+            const long n = unnm(kv.first);
+            if (!out.empty() && out.back().size() >= 2 && out.back()[0] == 2 && out.back()[1] == n)
+                out.back().push_back((long)kv.second);
+            else
+                out.push_back({2, n, (long)kv.second});
+        }
+    } else {
+        for (auto& kv : m) {
+            std::vector<long> l{2, unnm(kv.first)};
+            for (auto& t : kv.second) l.push_back((long)t);
+            out.push_back(l);
+        }
+    }
+}
 }  // namespace
 
 struct SohComp {
@@ -145,13 +170,14 @@ struct SohComp {
     }
     void final(std::vector<std::vector<long>>& out)
     {
+#ifndef VS_NO_PEEK
         out.push_back({0, led.live, holder.mapLock.owner == -1 ? -1L : (long)holder.mapLock.owner, vs::plan().calls});
         for (auto& kv : holder.objectMap) out.push_back({1, unnm(kv.first), idof(kv.second), kv.second ? kv.second->value : 0});
-        for (auto& kv : holder.typeMap) {
-            std::vector<long> l{2, unnm(kv.first)};
-            for (int t : kv.second) l.push_back(t);
-            out.push_back(l);
-        }
+        peek_tags(holder.typeMap, out);
+#else
+        out.push_back({0, led.live, -1L, vs::plan().calls});
+        out.push_back({8});  // the maps were not read
+#endif
         for (size_t i = 0; i < all.size(); ++i) {
             long uc = all[i].use_count();
             if (uc > 0) out.push_back({3, (long)i + 1, uc});
